@@ -57,11 +57,24 @@ func normalizeRepo(repo string, overlay map[string][]byte) (map[string][]byte, [
 			}
 			src = b
 		}
-		if !bytes.Contains(src, []byte("range")) || !bytes.Contains(src, []byte("func")) {
+		if !bytes.Contains(src, []byte("func")) {
 			return nil
 		}
 		cur := src
 		changed := false
+		if bytes.Contains(src, []byte("go func(")) || bytes.Contains(src, []byte("defer func(")) {
+			next, ns := flattenTrampolines(path, cur)
+			notes = append(notes, ns...)
+			if next != nil {
+				cur, changed = next, true
+			}
+		}
+		if !bytes.Contains(src, []byte("range")) {
+			if changed {
+				out[path] = cur
+			}
+			return nil
+		}
 		for pass := 0; pass < 8; pass++ {
 			next, note := unrollOnce(path, cur)
 			if next == nil {
